@@ -25,6 +25,7 @@ mod c14;
 mod c15;
 mod c16;
 mod c18;
+mod c19;
 
 use explore::report::Tier;
 
@@ -75,6 +76,7 @@ fn main() {
         "C15" => c15::run(&args),
         "C16" => c16::run(&args),
         "C18" => c18::run(&args),
+        "C19" => c19::run(&args),
         other => {
             eprintln!("unknown property {other}");
             2
@@ -136,6 +138,7 @@ fn replay(path: &str) -> i32 {
         "C15" => c15::replay(r),
         "C16" => c16::replay(r),
         "C18" => c18::replay(r),
+        "C19" => c19::replay(r),
         other => {
             eprintln!("no replay for property {other}");
             2
